@@ -67,6 +67,10 @@ type SimConn struct {
 	BatchWriteMax int // WriteBatch accepts at most this many messages per call (0 = all)
 	peerAddrs     map[string]net.Addr
 
+	// Sink, if set, receives delivered datagrams directly on the driver goroutine
+	// (solo mode: there is no reader goroutine).
+	Sink func(from string, data []byte)
+
 	Sent, Recv   int
 	PostClose    func(dst string) bool // scenario: was this datagram emitted after Close of its session
 	ReadBatchMax int
@@ -117,6 +121,10 @@ func (n *Net) Deliver(to, from string, data []byte, label string) {
 	}
 	c.Recv++
 	n.s.L.Logf("deliver %s<-%s len=%d pkt=%s", to, from, len(data), label)
+	if c.Sink != nil {
+		c.Sink(from, append([]byte(nil), data...))
+		return
+	}
 	select {
 	case c.inbox <- inPkt{data: append([]byte(nil), data...), from: fa}:
 	default:
